@@ -127,6 +127,9 @@ def run(ctx):
     check_dispatch(ctx)
     check_constant(ctx)
     check_weaver(ctx, wm)
+    from . import c20
+    ctx.rule('C13.6', 'a grid given explicitly must share both end points with the series: refused with ValueError unless the first AND the last element are equal')
+    c20.check_grid_guard(ctx, wm, rule='C13.6')
     from .common import dt_function, dt_weaver, DT_RULE
     ctx.rule('C13.5', DT_RULE)
     n_ = 0
